@@ -193,18 +193,44 @@ class Effects:
                 out.add((d1.then(d2), k2))
         return out
 
+    def stmts(self, n, where):
+        """effect of the statements of a block (without its tail expression)"""
+        Z = {(Eff(0), "fall")}
+        cur = Z
+        snaps = getattr(self, "_snaps", {})
+        for s in n.get("stmts", []):
+            if s["k"] == "let":
+                e1 = self.eff(s.get("init"), where)
+                cur = self.seq(cur, e1)
+                if s.get("els") is not None:
+                    cur = cur | self.seq(cur, self.eff(s["els"], where))
+                # `let x = self.sp - k;`: x names a height relative to the height at this point; it stays meaningful
+                # for a later `self.sp = x` as long as nothing in between moves the stack pointer
+                pat = s.get("pat", {})
+                if all(d.d == Lin(0) for d, _ in e1) and pat.get("k") == "bind" and s.get("init") is not None and "Mut" not in str(pat.get("mode", "")):
+                    v = sym_of(s["init"])
+                    if v is not None and v.t.get("self.sp") == 1:
+                        snaps = dict(snaps)
+                        snaps[pat["name"]] = v
+                        self._snaps = snaps
+                        continue
+            else:
+                self._snaps = snaps
+                e1 = self.eff(s.get("e"), where)
+                cur = self.seq(cur, e1)
+            if not all(d.d == Lin(0) for d, _ in e1):
+                snaps = {}
+                self._snaps = snaps
+        self._snaps = snaps
+        return cur
+
     def tail(self, n, where):
         """effect of n in the tail position of a function returning Result: an `Err(..)` value is an error exit"""
         if n is None:
             return {(Eff(0), "fall")}
         k = n.get("k")
         if k == "block":
-            cur = {(Eff(0), "fall")}
-            for st in n.get("stmts", []):
-                if st["k"] == "let":
-                    cur = self.seq(cur, self.eff(st.get("init"), where))
-                else:
-                    cur = self.seq(cur, self.eff(st.get("e"), where))
+            cur = self.stmts(n, where)
             if n.get("expr") is not None:
                 cur = self.seq(cur, self.tail(n["expr"], where))
             return cur
@@ -285,14 +311,7 @@ class Effects:
         if k == "break":
             return Z
         if k == "block":
-            cur = Z
-            for s in n.get("stmts", []):
-                if s["k"] == "let":
-                    cur = self.seq(cur, self.eff(s.get("init"), where))
-                    if s.get("els") is not None:
-                        cur = cur | self.seq(cur, self.eff(s["els"], where))
-                else:
-                    cur = self.seq(cur, self.eff(s.get("e"), where))
+            cur = self.stmts(n, where)
             if n.get("expr") is not None:
                 cur = self.seq(cur, self.eff(n["expr"], where))
             return cur
@@ -346,6 +365,10 @@ class Effects:
             if H.render(n["l"]) == "self.sp":
                 v = sym_of(n["r"])
                 pre = self.eff(n["r"], where)
+                if v is not None and v.t.get("self.sp") != 1 and len(v.t) == 1 and v.c == 0:
+                    snap = getattr(self, "_snaps", {}).get(next(iter(v.t)))
+                    if snap is not None:
+                        v = snap
                 if v is not None and v.t.get("self.sp") == 1:
                     return self.seq(pre, {(Eff(v - Lin(0, {"self.sp": 1})), "fall")})
                 txt = H.render(n["r"])
